@@ -320,7 +320,28 @@ impl Property for C30 {
     fn post_batch(&self, seed: u64, tier: Tier) -> Result<(J, Vec<(Violation, J)>), String> {
         use crate::core::miri;
         if tier == Tier::Quick {
-            return Ok((json!({"miri": "thorough tier only"}), vec![]));
+            // a small slice of the Miri tiers (a few seconds once the crate is built)
+            let base = mix(&[seed, 0x4d34]) % 1_000_000;
+            let jobs = vec![
+                miri::Job {
+                    mode: "c30-history",
+                    workload_seed: base,
+                    workload_count: 12,
+                    miri_seeds: 2,
+                    flags: miri::FLAGS_STRICT,
+                },
+                miri::Job {
+                    mode: "c30-free",
+                    workload_seed: base + 1,
+                    workload_count: 1,
+                    miri_seeds: 16,
+                    flags: miri::FLAGS_STRICT,
+                },
+            ];
+            return match miri::run_jobs(jobs, 1) {
+                Ok(r) => Ok(r),
+                Err(e) => Ok((json!({"miri": format!("not run in this quick tier: {e}")}), vec![])),
+            };
         }
         let base = mix(&[seed, 0x4d31]) % 1_000_000;
         let mut jobs = vec![];
